@@ -114,7 +114,7 @@ def judge(r, method, allow_negatives, consistent, viol, known, tags):
             cert = dict(cert, ok=(cert["neg"] <= tau and R_x ** 2 <= R_ref ** 2 * (1 + ctol) + (1e-5 * scale) ** 2))
         if not cert["ok"]:
             g = cert["g"]
-            stuck = [i for i in range(len(z)) if z[i] <= 1e-6 and g[i] < -tau]
+            stuck = [i for i in range(len(z)) if z[i] <= 1e-4 and g[i] < -tau]
             free_ok = all(abs(g[i]) <= 1e-3 * scale for i in range(len(z)) if z[i] > 1e-3)
             if method == "lsq" and cert["neg"] <= tau and stuck and free_ok:
                 # F20: lmfit maps the bound min=0 through a transform whose derivative vanishes at the bound; a
